@@ -17,14 +17,15 @@ OUTSIDE = ["which dependencies an inherited method follows when the method it na
 ASSUMPTIONS = ["values symbolic ints in [0,10] (b has bounds), bounds edits (0, 10+x)"]
 DEPSETS = [('a',), ('b',), ('a', 'b'), ('b:bounds',), ('a', 'b:bounds')]
 N_OPS = 6
-OV = ['none', 'decorated override', 'undecorated override', 'grandchild of a decorated override', 'mixin in front of the base']
+OV = ['none', 'decorated override', 'undecorated override', 'grandchild of a decorated override', 'mixin in front of the base',
+      'grandchild of an undecorated override']
 
 
 def prog(ds1: int, init1: bool, ov: int, ds2: int, init2: bool, k: int,
          o1: int, x1: int, o2: int, x2: int, o3: int, x3: int, o4: int, x4: int) -> None:
     ds1 = pick(ds1, 0, 4)
     ds2 = pick(ds2, 0, 4)
-    ov = pick(ov, 0, 4)
+    ov = pick(ov, 0, 5)
     init1, init2 = pickbool(init1), pickbool(init2)
     with untraced():   # class construction is concrete once the choices are realised
         log = []
@@ -59,11 +60,15 @@ def prog(ds1: int, init1: bool, ov: int, ds2: int, init2: bool, k: int,
                 class C(B):
                     pass
                 K = C
-        elif ov == 2:
+        elif ov in (2, 5):
             class B(A):
                 def m(self):
                     log.append('B.plain')
             K, eff, auto, tag, einit = B, (), False, 'B.plain', False
+            if ov == 5:
+                class C(B):
+                    pass
+                K = C
         else:
             class M:
                 def helper(self):
@@ -79,7 +84,7 @@ def prog(ds1: int, init1: bool, ov: int, ds2: int, init2: bool, k: int,
         check('C06.init_assignment_seen', log.count('wc') == 1 and p.c == 1, dict(info0, log=list(log)))
     else:
         check('C06.init_assignment_seen', True)
-    if ov in (1, 2, 3):
+    if ov in (1, 2, 3, 5):
         check('C06.override_replaces', log.count('A.m') == 0, dict(info0, log=list(log)))
     flog = []
     with untraced():
@@ -137,7 +142,7 @@ def prog(ds1: int, init1: bool, ov: int, ds2: int, init2: bool, k: int,
         kinds = {('slot' if ':' in d else 'value') for d in hit}
         info = dict(info0, op=o, got=got, exp=exp, changed=sorted(ch), value_and_slot_in_one_batch=(o == 4 and len(kinds) == 2))
         check('C06.once', got == exp, info)
-        if ov in (1, 2, 3):
+        if ov in (1, 2, 3, 5):
             check('C06.override_replaces', log.count('A.m') == 0, dict(info, log=list(log)))
         # the method that names m as a dependency follows m's (effective) dependencies
         if auto and ov in (0, 4):
@@ -146,7 +151,7 @@ def prog(ds1: int, init1: bool, ov: int, ds2: int, init2: bool, k: int,
 
 
 def _ranges(consts):
-    r = dict(ds1=(0, 4), ds2=(0, 4), ov=(0, 4))
+    r = dict(ds1=(0, 4), ds2=(0, 4), ov=(0, 5))
     for n in (1, 2, 3, 4):
         r['o%d' % n] = (0, N_OPS - 1)
         r['x%d' % n] = (0, 10)
@@ -160,7 +165,7 @@ def shards(tier):
     out = []
     q = tier == 'quick'
     k = 2 if q else 3
-    for ov in range(5):
+    for ov in range(6):
         for ds1 in range(5):
             for ds2 in (range(5) if ov in (1, 3) else (0,)):
                 if q and ov in (1, 3) and ds2 not in (0, 3):
